@@ -38,8 +38,9 @@ def evaluate(rec):
             return {"pre_ok": False, "violates": False, "detail": f"pre raised {e!r}"}
         if not ok:
             return {"pre_ok": False, "violates": False, "detail": f"pre false: {pr}"}
+    fn = getattr(mod, "native_" + o.fn.__name__, o.fn)  # optional: a native path through the public entry point
     try:
-        ret = o.fn(**call)
+        ret = fn(**call)
     except Exception as e:
         return {"pre_ok": True, "violates": True, "detail": "harness raised " + repr(e) + "\n" + traceback.format_exc()[-1500:]}
     ns["_"] = ret
